@@ -60,6 +60,9 @@ impl<'g> Cx<'g> {
                 if pi.subpat.is_some() {
                     return self.bail(p.span(), "`x @ pat` is not supported");
                 }
+                if pi.by_ref.is_some() && pi.mutability.is_some() {
+                    return self.bail(p.span(), "`ref mut` bindings are not supported");
+                }
                 let name = pi.ident.to_string();
                 let path: syn::Path = pi.ident.clone().into();
                 if let Some((en, v)) = self.resolve_variant(&path) {
